@@ -4,6 +4,8 @@ PM = "frequenz.sdk.microgrid._power_managing"
 FS = "frequenz.sdk.timeseries.formula_engine._formula_steps"
 RS = "frequenz.sdk.timeseries._resampling"
 BPM = "frequenz.sdk.timeseries.battery_pool._metric_calculator"
+BMGR = "frequenz.sdk.microgrid._power_distributing._component_managers._battery_manager:BatteryManager"
+ALGO = "frequenz.sdk.microgrid._power_distributing._distribution_algorithm._battery_distribution_algorithm"
 CSM = "frequenz.sdk.microgrid._power_distributing._component_status"
 BT = f"{CSM}._battery_status_tracker:BatteryStatusTracker"
 
@@ -174,5 +176,27 @@ PROPS = {
                      "version went `unknown`: nonlinear arithmetic under quantifiers)",
                      "not under contract: LatestMetricsFetcher.fetch_next (NaN metrics dropped) and "
                      "SendOnUpdate.update_working_batteries (cache eviction)"],
+    ),
+    "C17": dict(
+        modules=["pd_bounds"],
+        contracts=[f"{BMGR}._get_bounds#one_group", f"{BMGR}._get_bounds#two_groups",
+                   f"{BMGR}._check_request#one_group", f"{BMGR}._check_request#two_groups",
+                   f"{ALGO}:_aggregate_battery_power_bounds#n1", f"{ALGO}:_aggregate_battery_power_bounds#n2",
+                   f"{ALGO}:_aggregate_battery_power_bounds#n3",
+                   f"{BPM}:PowerBoundsCalculator.calculate"],
+        lemmas=["advertised_power_covers_every_group_minimum"],
+        bounded=[],
+        level="proof",
+        explanation="For symbolic (real-valued) bounds data: BatteryManager._get_bounds returns the documented closed forms, its "
+                    "inclusion bounds are identical to the advertised ones and its exclusion zone lies inside the advertised one; "
+                    "_check_request therefore accepts every non-zero power the advertised bounds admit (both adjust_power "
+                    "settings); such a power is at least the sum of the groups' minimum powers.",
+        assumptions=[REALS, EXTRACTION,
+                     "structural bound: one or two battery groups with up to two inverters each, up to three batteries per group "
+                     "in _aggregate_battery_power_bounds; all numeric data unbounded",
+                     "PowerBoundsCalculator.calculate is verified against the same advertised aggregates for one fixed "
+                     "topology (batteries {1,2} behind inverter {11}; battery {3} behind {12,13}), complete data, every "
+                     "subset of working batteries; the link between the two formulations of 'advertised' (spec functions "
+                     "adv_* over InvBatPair data vs pool_adv over metrics data) is by reading, not machine-checked"],
     ),
 }
